@@ -71,7 +71,10 @@ def gen_ipv4(rng):
     parts = []
     for i in range(k):
         v = rng.choice([0, 1, 7, 8, 9, 10, 99, 127, 255, 256, 65535, 65536, 16777215, 16777216, 4294967295, 4294967296,
-                        rng.randrange(256), rng.randrange(1 << 32)])
+                        rng.randrange(256), rng.randrange(1 << 32),
+                        # numbers that wrap around a 64-bit accumulator into a legal value (17+ hex digits, 22+ octal digits)
+                        (1 << 64) + rng.randrange(256), (1 << 64) * rng.randrange(1, 1 << 16) + rng.randrange(1 << 32),
+                        (1 << 64) - 1, 1 << 64, 1 << 63, (1 << 68) + 0x7f000001])
         if i < k - 1 and rng.random() < 0.8:
             v %= 256
         f = rng.random()
